@@ -40,6 +40,46 @@ def shapes():
         # terms (non Boolean)
         ("Plus", x, ("Times", L(3, INT), y)), ("Ite", a, r, s_), ("BVXor", u, ("BVRol", v, 1)), ("Minus", ("ToReal", x), r),
     ]
+    # every bit-vector operator, operands of unequal widths where the operator allows it, signed operators on both
+    # signs, division / remainder with zero and negative divisors, rotations and extensions by several steps
+    B2 = ("BV", 2)
+    p2, q2 = S("p2", B2), S("q2", B2)
+    w5 = S("w5", ("BV", 5))
+    for ctor in ("BVAnd", "BVOr", "BVXor", "BVAdd", "BVSub", "BVMul", "BVUDiv", "BVURem", "BVLShl", "BVLShr"):
+        sh.append(("Equals", (ctor, u, v), u))
+    # signed division / remainder fork on both signs: one operand is a constant of either sign
+    for ctor in ("BVSDiv", "BVSRem"):
+        for k_ in (2, 5, 7):
+            sh.append(("Equals", (ctor, u, L(k_, B3)), v))
+            sh.append(("Equals", (ctor, L(k_, B3), u), v))
+    for ctor in ("BVULT", "BVULE", "BVSLT", "BVSLE", "BVUGT", "BVUGE", "BVSGT", "BVSGE"):
+        sh.append((ctor, u, v))
+    sh += [("Equals", ("BVConcat", u, p2), w5), ("Equals", ("BVConcat", p2, u), w5), ("Equals", ("BVConcat", p2, ("BVConcat", q2, L(1, ("BV", 1)))), w5),
+           ("Equals", ("BVZExt", p2, 3), w5), ("Equals", ("BVSExt", p2, 3), w5), ("Equals", ("BVSExt", u, 2), w5),
+           ("Equals", ("BVExtract", w5, 1, 3), u), ("Equals", ("BVExtract", w5, 3, 4), p2), ("Equals", ("BVExtract", w5, 0, 4), w5),
+           ("Equals", ("BVRol", u, 1), v), ("Equals", ("BVRol", u, 2), v), ("Equals", ("BVRor", u, 1), v), ("Equals", ("BVRor", w5, 3), w5),
+           ("Equals", ("BVComp", u, v), L(1, ("BV", 1))), ("Equals", ("BVNeg", u), ("BVAdd", ("BVNot", u), L(1, B3))),
+           ("Equals", ("BVSDiv", u, L(0, B3)), v), ("Equals", ("BVSRem", u, L(0, B3)), v), ("Equals", ("BVUDiv", u, L(0, B3)), v),
+           ("Equals", ("BVURem", u, L(0, B3)), v), ("Equals", ("BVAShr", u, L(1, B3)), v), ("Equals", ("BVAShr", u, L(7, B3)), v),
+           ("Equals", ("BVLShl", u, L(3, B3)), v), ("Equals", ("BVToNatural", ("BVConcat", p2, u)), x),
+           ("Equals", ("BVSMod", u, v), u) if False else ("Equals", ("BVXnor", u, v), u) if False else ("Equals", ("BVNand", u, v), u) if False else ("Equals", ("BVNot", ("BVAnd", u, v)), u)]
+    # arithmetic: integer division by constants of both signs (the theory's rounding), products of constants, real
+    # division, powers, mixed Int / Real terms, comparisons at the boundary
+    from fractions import Fraction as F
+    sh += [("Equals", ("Div", x, L(3, INT)), y), ("Equals", ("Div", x, L(-3, INT)), y), ("Equals", ("Div", x, L(1, INT)), y), ("Equals", ("Div", x, L(-1, INT)), y),
+           ("Equals", ("Div", ("Plus", x, y), L(2, INT)), z), ("Equals", ("Div", r, L(F(-2), REAL)), s_), ("Equals", ("Div", r, L(F(1, 3), REAL)), s_),
+           ("Equals", ("Times", L(-2, INT), x, L(3, INT)), y), ("LE", ("Times", r, L(F(1, 2), REAL)), s_), ("LT", ("Minus", L(0, INT), x), y),
+           ("Equals", ("Pow", r, L(F(2), REAL)), s_), ("Equals", ("Pow", x, L(2, INT)), y), ("LE", ("ToReal", ("Plus", x, y)), ("Plus", r, L(F(1, 2), REAL))),
+           ("Equals", ("Ite", ("LT", x, y), ("Minus", y, x), ("Minus", x, y)), z), ("Iff", ("LE", x, y), ("Not", ("LT", y, x))),
+           ("Equals", ("Plus", x, x, x), ("Times", L(3, INT), x)), ("Equals", ("Minus", ("Minus", x, y), z), ("Minus", x, ("Plus", y, z)))]
+    # arrays and functions over model values
+    arr = S("arr", ("ARRAY", INT, INT))
+    sh += [("Equals", ("Select", ("Store", ("Array", ("type", INT), L(0, INT)), x, y), z), y),
+           ("Equals", ("Select", ("Store", ("Store", ("Array", ("type", INT), L(7, INT)), L(1, INT), x), L(2, INT), y), L(1, INT)), x),
+           ("Equals", ("Select", ("Store", ("Store", ("Array", ("type", INT), L(7, INT)), L(1, INT), x), L(2, INT), y), L(3, INT)), z),
+           ("Equals", ("Select", ("Store", ("Array", ("type", INT), L(0, INT)), x, y), x), y),
+           ("Equals", ("Select", ("Store", ("Store", ("Array", ("type", INT), L(0, INT)), x, y), x, z), x), z),
+           ("Equals", ("Select", ("Array", ("type", INT), L(5, INT)), x), y)]
     return [Shape(t) for t in sh]
 
 
@@ -96,9 +136,17 @@ def _model_job(job):
         undefined = 0
         # assignments of the symbolic constants; the symbols take the constants' values
         nodes = [f] + list(asg.values()) + [v[1] for k, v in out.items() if isinstance(k, tuple) and v[0] == "ret" and w.is_node(v[1])]
+        uses_arrays = "Store" in repr(shape_t) or "Select" in repr(shape_t)
         for a in sc.assignments(w, nodes, facts):
             if not sc.facts_hold(facts, a):
                 continue
+            if uses_arrays:
+                # array folds compare index *nodes*: two model constants are two nodes, so this run stands for the
+                # models that give them different values (equal values are covered by the skeletons that use one
+                # symbol at both positions)
+                cvals = [(k_, v_) for k_, v_ in a.items() if not k_.startswith("sym:") and not k_.startswith("fun:")]
+                if len(set(map(repr, [v_ for _k, v_ in cvals]))) != len(cvals):
+                    continue
             env = dict(a)
             try:
                 for sy in syms:
